@@ -6,11 +6,11 @@ ASSUMPTIONS = B.ASSUMPTIONS
 ASPECTS = 'DF'
 RULE = ('random histories of 2-5 connections over two permission tables: per-connection scripts of AUTH (valid and ten invalid '
         'digest variants), SUBSCRIBE/UNSUBSCRIBE/PUBLISH (mostly permitted, some forbidden or spoofed), malformed frames; '
-        'streams cut at random (whole, per frame, per byte, inside headers); events interleaved at random with Lost, EOF, '
+        'streams cut at random (whole, per frame, per byte, inside headers, pipelined bursts of 1-4 whole frames); some plans add valid re-authentication under another identity and a directed scenario (subscribe, re-authenticate, leave, then others publish on every channel ever held); events interleaved at random with Lost, EOF, '
         'pause/resume-writing and clock ticks; non-trivial = at least one PUBLISH was delivered; distinct by event list. '
-        'Compared with the Coq model on aspects %s; frame-normalised synchronous-store histories are also judged by '
-        'harness/judge.py')
-PLAN = [(90, 2500, dict(profile='mixed'), False), (60, 1500, dict(profile='benign', nconn=4, nops=10), False), (90, 2500, dict(profile='mixed', chunking='frames'), True), (40, 800, dict(profile='mixed', async_=True), False)]
+        'Compared with the Coq model on aspects %s; frame-normalised synchronous-store histories (one frame per read, or a read of several permitted frames) are '
+        'also judged by harness/judge.py')
+PLAN = [(60, 1500, dict(profile='benign', chunking='bursts', reauth=0.06, nops=10), True), (40, 600, dict(scenario='reauth_leave'), True), (90, 2500, dict(profile='mixed'), False), (60, 1500, dict(profile='benign', nconn=4, nops=10), False), (90, 2500, dict(profile='mixed', chunking='frames'), True), (40, 800, dict(profile='mixed', async_=True), False)]
 
 
 def run(ctx, res):
